@@ -477,6 +477,36 @@ func c10Run(c *core.Ctx, i int) {
 		return
 	}
 	switch (i - grid) % 12 {
+	case 5:
+		// ranges whose iteration count is not (stop-start)/step in floating point: steps that are not
+		// exactly representable (the running value accumulates), huge and tiny bounds left by break
+		c.Cover("family", "range-arithmetic")
+		r := c.Rng
+		steps := [][]float64{{0, 1, 0.1}, {0, 2.1, 0.3}, {1, 0, -0.1}, {0, 0.7, 0.07}, {0.1, 0.5, 0.1}, {0, 1, 0.3}, {5, 4, -0.15}, {0, 0.3, 0.1}, {-1, 1, 0.2}}
+		t := steps[r.Intn(len(steps))]
+		huge := []gen.Expr{nl(10000000000000000000), call("pow", tNum, nl(10), nl(300)), nl(9007199254740993), nl(4611686018427387904)}[r.Intn(4)]
+		hugeStep := []gen.Expr{nl(1), call("pow", tNum, nl(10), nl(280)), nl(0.5), nl(1000000)}[r.Intn(4)]
+		brk := float64(2 + r.Intn(3))
+		prog := &gen.Program{Stmts: []gen.Stmt{
+			gen.Decl{Name: "cnt", T: tNum, Init: nl(0)},
+			gen.For{Var: "i", VarT: tNum, Args: []gen.Expr{nl(t[0]), nl(t[1]), nl(t[2])}, Body: []gen.Stmt{printCall(vr("i", tNum)), gen.Assign{Target: vr("cnt", tNum), Val: gen.Binary{Op: "+", L: vr("cnt", tNum), R: nl(1), T: tNum}}}},
+			printCall(sl("count"), vr("cnt", tNum)),
+			gen.Assign{Target: vr("cnt", tNum), Val: nl(0)},
+			gen.For{Var: "j", VarT: tNum, Args: []gen.Expr{nl(0), huge, hugeStep}, Body: []gen.Stmt{
+				gen.Assign{Target: vr("cnt", tNum), Val: gen.Binary{Op: "+", L: vr("cnt", tNum), R: nl(1), T: tNum}},
+				gen.If{Conds: []gen.Expr{gen.Binary{Op: ">=", L: vr("cnt", tNum), R: nl(brk), T: tBool}}, Blocks: [][]gen.Stmt{{gen.Break{}}}},
+				printCall(sl("huge"), gen.Binary{Op: ">=", L: vr("j", tNum), R: nl(0), T: tBool}),
+			}},
+			printCall(sl("count"), vr("cnt", tNum)),
+			gen.Assign{Target: vr("cnt", tNum), Val: nl(0)},
+			gen.For{Args: []gen.Expr{huge}, Body: []gen.Stmt{
+				gen.Assign{Target: vr("cnt", tNum), Val: gen.Binary{Op: "+", L: vr("cnt", tNum), R: nl(1), T: tNum}},
+				gen.If{Conds: []gen.Expr{gen.Binary{Op: ">=", L: vr("cnt", tNum), R: nl(brk), T: tBool}}, Blocks: [][]gen.Stmt{{gen.Break{}}}},
+			}},
+			printCall(sl("count"), vr("cnt", tNum)),
+		}}
+		runGenProgram(c, prog, nil, true, false)
+		return
 	case 3:
 		c.Cover("family", "shadowing-in-every-block-kind")
 		runGenProgram(c, shadowProgram(c.Rng), nil, true, false)
